@@ -75,11 +75,10 @@ func (env *Envelope) SetMetadataKeyValue(key string, value string) *Envelope {
 
 // Sender returns the envelope sender Node.
 func (env *Envelope) Sender() Node {
-	if env.PP == (Node{}) {
+	if env.PP != (Node{}) {
 		return env.PP
-	} else {
-		return env.From
 	}
+	return env.From
 }
 
 func (env *Envelope) toRawEnvelope() (*rawEnvelope, error) {
